@@ -40,6 +40,9 @@ type Ctx struct {
 }
 
 // Case is anything the worker can execute.
+// levelPortable names the portable build (noasmtest) among the acceleration levels.
+const levelPortable = 9
+
 type Case interface {
 	Header() *caseHeader
 }
@@ -247,6 +250,15 @@ func (c *Ctx) runShard(name string, idx int, sh *shard, race bool) error {
 			return fmt.Errorf("no race-enabled harness binary (VERIF_RACE_BIN)")
 		}
 	}
+	level := sh.arch
+	if sh.arch == levelPortable {
+		// the portable build of the library (build tag noasmtest: what every non-amd64 target
+		// compiles) is run as one more "acceleration level"
+		level = 0
+		if pb := os.Getenv("VERIF_PORTABLE_BIN"); pb != "" && !race {
+			bin = pb
+		}
+	}
 	remaining := sh.cases
 	ids := sh.ids
 	out, err := os.Create(sh.out)
@@ -262,7 +274,7 @@ func (c *Ctx) runShard(name string, idx int, sh *shard, race bool) error {
 			return err
 		}
 		cmd := exec.Command(bin, "worker", "--in", in, "--out", part, "--prog", prog)
-		cmd.Env = append(os.Environ(), "FASTGO_VERIF_ARCHLEVEL="+strconv.Itoa(sh.arch), "GOTRACEBACK=single", "GORACE=halt_on_error=1 exitcode=66")
+		cmd.Env = append(os.Environ(), "FASTGO_VERIF_ARCHLEVEL="+strconv.Itoa(level), "GOTRACEBACK=single", "GORACE=halt_on_error=1 exitcode=66")
 		var stderr bytes.Buffer
 		cmd.Stderr = &stderr
 		runErr := cmd.Run()
